@@ -141,6 +141,25 @@ func (c *ctx) generic() {
 			c.v("C05/body-changed-while-handled", "conn %d invocation %d: the request body the handler was given changed while the handler was running (another connection's traffic overwrote it)", e.Conn, e.A)
 			c.v("C09/body-changed-while-handled", "conn %d invocation %d: the request body the handler was given changed while the handler was running", e.Conn, e.A)
 		}
+		if e.Kind == "retained-body-changed" {
+			for _, id := range []string{"C03", "C04", "C05", "C09"} {
+				c.v(id+"/retained-request-changed", "conn %d: the request body given to handler invocation %d no longer reads as received by the time invocation %d runs (a later packet on the connection was decoded over it)", e.Conn, e.A, e.B)
+			}
+		}
+		if e.Kind == "receiver-reuse-differs" {
+			site := e.S
+			if k := strings.Index(site, ":"); k > 0 {
+				site = site[:k]
+			}
+			for _, id := range []string{"C01", "C02"} {
+				c.vs(id+"/decode-depends-on-receiver", site, "conn %d step %d: decoding the same bytes gives a different value when the receiver was used before: %s", e.Conn, e.A, e.S)
+			}
+		}
+		if e.Kind == "rc-retained-reply-changed" {
+			for _, id := range []string{"C01", "C02", "C03", "C04"} {
+				c.v(id+"/retained-reply-changed", "client %d: the reply Client.Send returned for op %d changed after a later exchange on the same connection", e.Conn, e.A)
+			}
+		}
 		if e.Kind == "panic" {
 			first := e.S
 			if i := strings.Index(first, "\n"); i > 0 {
